@@ -18,7 +18,7 @@ TraceInit ==
     /\ Trace[s].ev = "Start"
     /\ stack = <<>> /\ tclog = <<>> /\ nxid = 0 /\ cancelled = FALSE
     /\ rets = <<>> /\ decided = <<>> /\ env = <<>>
-    /\ budget = Trace[s].maxretry      \* the retry count this execution was configured with
+    /\ budget = [commit |-> Trace[s].retryc, rollback |-> Trace[s].retryr]   \* the configured retry counts
     /\ TLCSet(Trace[s].t, s + 1)
 
 IsEv(e) == /\ l <= EndOf(s0)
